@@ -1540,3 +1540,165 @@ func (c *Ctx) checkAvatarLinkOnlyWithDesc() {
 	}
 	r.Check(n >= 1, "C16.5d-avatar-link-with-description", "avatar linking in the description handler", "-", fmt.Sprintf("%d", n), "not found: anchor lost")
 }
+
+// checkDerefOfNullableResult (C13): `*f(x)` - the result of a module function is dereferenced at
+// once. With the facts known about the arguments at the call site assumed for the parameters, no
+// return of f may yield a possibly nil pointer.
+func (c *Ctx) checkDerefOfNullableResult() {
+	r := c.R
+	n := 0
+	for _, fn := range c.P.ModFuncs {
+		if !core.InPkg(fn, "server") && !core.InPkg(fn, "server/store") {
+			continue
+		}
+		type site struct {
+			ld   *ssa.UnOp
+			call *ssa.Call
+		}
+		var sites []site
+		core.AllInstrs(fn, func(in ssa.Instruction) {
+			ld, ok := in.(*ssa.UnOp)
+			if !ok || ld.Op != token.MUL {
+				return
+			}
+			call, ok := ld.X.(*ssa.Call)
+			if !ok || call.Call.IsInvoke() {
+				return
+			}
+			callee := call.Call.StaticCallee()
+			if callee == nil || !core.InModule(callee) || callee.Signature.Results().Len() != 1 {
+				return
+			}
+			if _, isPtr := callee.Signature.Results().At(0).Type().Underlying().(*types.Pointer); !isPtr {
+				return
+			}
+			sites = append(sites, site{ld, call})
+		})
+		if len(sites) == 0 {
+			continue
+		}
+		// facts about the arguments at each call site
+		argNonNil := map[*ssa.Call][]bool{}
+		seenCall := map[*ssa.Call]bool{}
+		checkedLoad := map[*ssa.UnOp]bool{} // the load is reached only with the result known non-nil
+		seenLoad := map[*ssa.UnOp]bool{}
+		core.NilWalk(fn, nil, nil, nil, func(in ssa.Instruction, f core.NilFacts) {
+			if ld, ok := in.(*ssa.UnOp); ok {
+				for _, s := range sites {
+					if s.ld == ld {
+						k, nl := core.Nilness(ld.X, f)
+						good := k && !nl
+						if !seenLoad[ld] {
+							seenLoad[ld] = true
+							checkedLoad[ld] = good
+						} else {
+							checkedLoad[ld] = checkedLoad[ld] && good
+						}
+					}
+				}
+				return
+			}
+			call, ok := in.(*ssa.Call)
+			if !ok {
+				return
+			}
+			isSite := false
+			for _, s := range sites {
+				if s.call == call {
+					isSite = true
+				}
+			}
+			if !isSite {
+				return
+			}
+			cur := make([]bool, len(call.Call.Args))
+			for i, a := range call.Call.Args {
+				k, nl := core.Nilness(a, f)
+				cur[i] = (k && !nl) || isPbSliceElem(a)
+			}
+			if !seenCall[call] {
+				seenCall[call] = true
+				argNonNil[call] = cur
+				return
+			}
+			for i := range cur {
+				argNonNil[call][i] = argNonNil[call][i] && cur[i]
+			}
+		})
+		for _, s := range sites {
+			callee := s.call.Call.StaticCallee()
+			n++
+			r.Func(fk(fn))
+			if checkedLoad[s.ld] {
+				r.OK("C13.2d-deref-of-nullable-result", fmt.Sprintf("%s: *%s(...) #%s", fk(fn), callee.Name(), ordinalOfLoad(fn, s.ld)), c.pos(s.ld), "result tested for nil before the dereference")
+				continue
+			}
+			facts := core.NilFacts{}
+			for i, p := range callee.Params {
+				if i < len(argNonNil[s.call]) && argNonNil[s.call][i] {
+					facts[p] = false
+				}
+			}
+			var bad ssa.Instruction
+			res := core.NilWalkEntryWith(callee, facts, nil, nil, func(in ssa.Instruction, f core.NilFacts) {
+				ret, ok := in.(*ssa.Return)
+				if !ok {
+					return
+				}
+				if k, nl := core.Nilness(ret.Results[0], f); !(k && !nl) {
+					bad = ret
+				}
+			})
+			if why, ok := derefExceptions[fn.Name()+"/"+callee.Name()]; ok && bad != nil {
+				r.OK("C13.2d-deref-of-nullable-result", fmt.Sprintf("%s: *%s(...) #%s [exception]", fk(fn), callee.Name(), ordinalOfLoad(fn, s.ld)), c.pos(s.ld), why)
+				continue
+			}
+			r.Check(bad == nil && !res.Overflow, "C13.2d-deref-of-nullable-result", fmt.Sprintf("%s: *%s(...) #%s", fk(fn), callee.Name(), ordinalOfLoad(fn, s.ld)), c.pos(s.ld), "",
+				fmt.Sprintf("the result of %s is dereferenced at once although it can be nil%s: a request that makes it return nil crashes the goroutine", callee.Name(), posOf(c, bad)))
+		}
+	}
+	r.Check(n >= 1, "C13.2d-deref-of-nullable-result", "immediate dereferences of call results", "-", fmt.Sprintf("%d", n), "none found: anchor lost")
+}
+
+func ordinalOfLoad(fn *ssa.Function, target *ssa.UnOp) string {
+	n := 0
+	out := "?"
+	core.AllInstrs(fn, func(in ssa.Instruction) {
+		if u, ok := in.(*ssa.UnOp); ok && u.Op == token.MUL {
+			if _, isCall := u.X.(*ssa.Call); isCall {
+				n++
+				if u == target {
+					out = fmt.Sprint(n)
+				}
+			}
+		}
+	})
+	return out
+}
+
+// derefExceptions: reviewed `*f(x)` sites whose input is not client-controlled.
+var derefExceptions = map[string]string{
+	"pbSubSliceDeserialize/int64ToTime": "decodes the FindSubs response of a configured plug-in (server-side extension), not a client request; a plug-in sending updated_at=0 would crash here - outside the property's quantifier (client input)",
+}
+
+// isPbSliceElem: an element of a slice of pointers to protobuf messages (range value or indexed
+// load). Trusted: protobuf unmarshalling never produces nil elements in a repeated message field.
+func isPbSliceElem(v ssa.Value) bool {
+	pt, ok := v.Type().(*types.Pointer)
+	if !ok {
+		return false
+	}
+	n, ok := pt.Elem().(*types.Named)
+	if !ok || n.Obj().Pkg() == nil || n.Obj().Pkg().Name() != "pbx" {
+		return false
+	}
+	switch x := v.(type) {
+	case *ssa.Extract:
+		_, isNext := x.Tuple.(*ssa.Next)
+		return isNext
+	case *ssa.UnOp:
+		_, isIdx := x.X.(*ssa.IndexAddr)
+		return isIdx && x.Op == token.MUL
+	}
+	return false
+}
